@@ -352,6 +352,80 @@ fn halted_overrun(rep: &mut Report, only: Option<(bool, usize, usize)>) {
     }
 }
 
+
+struct OnePoke([rustzx_core::poke::PokeAction; 1]);
+impl rustzx_core::poke::Poke for OnePoke {
+    fn actions(&self) -> &[rustzx_core::poke::PokeAction] {
+        &self.0
+    }
+}
+
+/// (2e) Host-side operations executed while the emulation is stopped inside a frame (after a breakpoint or
+/// between single steps) execute nothing, so they take no emulated time: the frame offset before and
+/// after is the same, wherever the beam is and whatever memory the operation touches.
+fn host_ops(rep: &mut Report, only: Option<(bool, usize, usize)>) {
+    const ADDRS: [u16; 9] = [0x0000, 0x3FFF, 0x4000, 0x57FF, 0x5AFF, 0x5B00, 0x7FFF, 0x8000, 0xC000];
+    for m128 in [false, true] {
+        let first = if m128 { 14361 } else { 14335 };
+        let line = if m128 { 228 } else { 224 };
+        // frame offsets: border, every phase of the 8-T contention pattern on three picture lines, the line's border part
+        let mut ts: Vec<usize> = vec![0, 31, 5000];
+        for l in [0usize, 95, 191] {
+            for ph in 0..16 {
+                ts.push(first + l * line + ph);
+            }
+            ts.push(first + l * line + 130);
+        }
+        ts.push(first + 192 * line + 7);
+        let banks: &[u8] = if m128 { &[0, 1, 5, 7] } else { &[0] };
+        for &bank in banks {
+            let mut e = emu(&Cfg::new(m128));
+            if m128 {
+                e.verif_write_io(0x7FFD, bank);
+            }
+            e.verif_set_frame_clocks(0);
+            for (ti, &t) in ts.iter().enumerate() {
+                if let Some((m, tt, _)) = only {
+                    if m != m128 || tt != t {
+                        continue;
+                    }
+                }
+                e.verif_set_frame_clocks(t);
+                for (ai, &a) in ADDRS.iter().enumerate() {
+                    if let Some((_, _, aa)) = only {
+                        if aa != ai {
+                            continue;
+                        }
+                    }
+                    let before = e.verif_frame_clocks();
+                    e.execute_poke(OnePoke([rustzx_core::poke::PokeAction::mem(a, (ti * 9 + ai) as u8 | 1)]));
+                    let after_poke = e.verif_frame_clocks();
+                    let _ = e.peek(a);
+                    let _ = e.border_color();
+                    let after = e.verif_frame_clocks();
+                    rep.eval();
+                    rep.class(format!("host-op m128={} bank={} region={:x} contended-time={}", m128, bank, a >> 14, t >= first && t < first + 192 * line));
+                    if after != before {
+                        viol(
+                            rep,
+                            Kind::SpecViolated,
+                            if after_poke != before { "C05/host-op/poke" } else { "C05/host-op/peek" },
+                            format!(
+                                "{} (bank {} at 0xC000) stopped at frame offset {}: a host {} of {:04x} moves the frame offset to {} although nothing was executed — executed T-states no longer equal frames*L + offset",
+                                if m128 { "128K" } else { "48K" }, bank, before, if after_poke != before { "poke" } else { "peek" }, a, after
+                            ),
+                            format!("hostop {} {} {} {}", if m128 { 128 } else { 48 }, t, ai, bank),
+                            format!("{}", after),
+                            format!("{}", before),
+                        );
+                        return;
+                    }
+                }
+            }
+        }
+    }
+}
+
 /// (2c) INT window: CPU with interrupts enabled placed at every frame offset 0..=47
 fn int_window(rep: &mut Report, model: &mut Model, only: Option<(bool, usize)>) {
     for m128 in [false, true] {
@@ -403,7 +477,7 @@ real wait_internal over many frames, (offset, frames, INT) compared after every 
 total = frames*L + offset, INT <=> offset < 32; system level: counting loop (16 T/iteration) run for 1..14 frames sliced \
 1/2/3/14 frames per emulate_frames call on both machines (executed T-states must equal frames*L+offset), IM 2 \
 interrupt counters under HALT and busy loops (exactly one interrupt per frame start), and the INT window swept with \
-an interrupt-enabled CPU at every frame offset 0..47; interrupt-driven programs (EI;HALT under IM 2 with a handler that re-enables interrupts at once / after more than 32 T; a repeating LDIR with interrupts enabled at every phase relative to the frame start; code in uncontended and contended RAM) run across a frame start in lock-step with the Lean machine. distinct/non-trivial = distinct (machine, offset near a frame \
+an interrupt-enabled CPU at every frame offset 0..47; host pokes/peeks at a mid-frame stop (every phase of the contention pattern, every memory region and 128K bank) must leave the frame offset alone; interrupt-driven programs (EI;HALT under IM 2 with a handler that re-enables interrupts at once / after more than 32 T; a repeating LDIR with interrupts enabled at every phase relative to the frame start; code in uncontended and contended RAM) run across a frame start in lock-step with the Lean machine. distinct/non-trivial = distinct (machine, offset near a frame \
 edge, INT level) clock observations + distinct program/slicing/offset cases".into();
     let mut model = Model::spawn(&o.model, "C05");
     if let Some(text) = &o.replay {
@@ -422,6 +496,7 @@ edge, INT level) clock observations + distinct program/slicing/offset cases".int
             Some("window") => int_window(&mut rep, &mut model, Some((m128, n(2)))),
             Some("sys") => crate::sys::replay(o, &mut rep, "C05", text),
             Some("haltrun") => halted_overrun(&mut rep, Some((m128, n(2), n(3)))),
+            Some("hostop") => host_ops(&mut rep, Some((m128, n(2), n(3)))),
             _ => {}
         }
         return rep;
@@ -431,6 +506,7 @@ edge, INT level) clock observations + distinct program/slicing/offset cases".int
     interrupts(o, &mut rep, None);
     int_window(&mut rep, &mut model, None);
     halted_overrun(&mut rep, None);
+    host_ops(&mut rep, None);
     // interrupt-driven programs across a frame start, in lock-step with the Lean machine
     crate::sys::interrupt_programs(o, &mut rep, "C05");
 
